@@ -1,6 +1,8 @@
 """C07 -- subprocess result channel: nothing lost, nothing partial trusted (structural part)."""
 import ast
 
+from sa.variance import path_literals
+
 from .common import (ANY_EXC, AnyCall, Ctx, T_open, call_name, calls_in, dotted, is_name, kw,
                      local_assignments, mentions, node_calls, nodes_calling, norm, own_calls,
                      params, truth_test)
@@ -20,6 +22,7 @@ def run(model, rep, tier):
     r4_fail_closed(ctx, rep)
     r5_channel_separation(ctx, rep)
     r6_bookkeeping(ctx, rep)
+    r8_noise_tolerance(ctx, rep)
     from . import c12
     c12.r3_accumulators(ctx, rep, R='C07.R7')
     rep.units['cfg'] = ctx.cfg_stats
@@ -96,6 +99,7 @@ class Consumer:
         self.nexts, self.apps, self.decs = nexts, apps, decs
         self.lineno = head.lineno
         self.expanded = False
+        self.open_ended = False
 
     def __iter__(self):               # legacy tuple view
         return iter((self.head, self.counter, self.acc, self.nexts, self.apps, self.decs))
@@ -105,6 +109,20 @@ def _islice_counter(e):
     if isinstance(e, ast.Call) and dotted(e.func) in ('islice', 'itertools.islice') and \
             len(e.args) == 2 and isinstance(e.args[1], ast.Name):
         return e.args[1].id
+    return None
+
+
+def _sum_names(e):
+    """[names] of ``a + b + c`` (None for a missing bound -> [] for lower, None for upper)"""
+    if e is None:
+        return None
+    if isinstance(e, ast.Name):
+        return [e.id]
+    if isinstance(e, ast.BinOp) and isinstance(e.op, ast.Add):
+        a, b = _sum_names(e.left), _sum_names(e.right)
+        return None if a is None or b is None else a + b
+    if isinstance(e, ast.Constant) and e.value == 0:
+        return []
     return None
 
 
@@ -124,9 +142,25 @@ def _consumer_loops(ctx, fi, g):
                     isinstance(c.func.value, ast.Name) and c.args and \
                     isinstance(c.args[0], (ast.GeneratorExp, ast.ListComp)) and \
                     len(c.args[0].generators) == 1:
-                cnt = _islice_counter(c.args[0].generators[0].iter)
+                it = c.args[0].generators[0].iter
+                cnt = _islice_counter(it)
                 if cnt is not None:
                     out.append(Consumer(n, cnt, c.func.value.id, 'extend-islice', False, [], [n.id], []))
+                elif isinstance(it, ast.Subscript) and isinstance(it.slice, ast.Slice) and \
+                        isinstance(it.value, ast.Name):
+                    lo = _sum_names(it.slice.lower) if it.slice.lower is not None else []
+                    up = _sum_names(it.slice.upper)
+                    extra = [x for x in (up or []) if x not in (lo or [])] if up is not None else []
+                    cnt = extra[0] if up is not None and lo is not None and len(extra) == 1 and \
+                        len(up) == len(lo) + 1 else None
+                    # running short is noticed if a length check against the counters raises first
+                    strict = any(isinstance(x, ast.Raise) and any(
+                        'len(%s)' % it.value.id in norm(e) for e, p_ in path_literals(x, fi.node))
+                        for x in ast.walk(fi.node))
+                    cons = Consumer(n, cnt or '<open-ended slice %s>' % norm(it.slice), c.func.value.id,
+                                    'extend-slice', strict, [], [n.id], [])
+                    cons.open_ended = cnt is None
+                    out.append(cons)
             continue
         if n.kind == 'test' and isinstance(n.stmt, ast.While):
             t = n.ast
@@ -262,8 +296,10 @@ def r1_r2_wire(ctx, rep, R1='C07.R1', R2='C07.R2'):
         lp, counter, acc, nexts, apps, decs = cons
         body = [d for d, k in g.succ[lp.id] if k == 'true']
         one = True
-        if cons.form == 'extend-islice':
-            rep.ok(R2, 'reader %s.extend(... islice(it, %s)): one entry per line consumed' % (acc, counter))
+        if cons.form in ('extend-islice', 'extend-slice'):
+            rep.check(not cons.open_ended, R2, 'reader %s.extend(...): as many entries as the header announced (%s)' % (acc, counter),
+                      'the entries added to %s are not bounded by the announced count (%s): every further line on the child\'s stderr (noise written after the report) becomes an entry' % (acc, counter),
+                      key='consumer-bound:' + str(acc), func=READER, where=ctx.where(r, lp.ast))
             continue
         groups = {'while-next': (nexts, apps, decs), 'for-range-next': (nexts, apps),
                   'for-islice': (apps,)}[cons.form]
@@ -678,3 +714,63 @@ def r6_bookkeeping(ctx, rep, R='C07.R6'):
                   path=g.describe_path(g.path(normal_succ, wg, avoid=set(group), include_start=True,
                                               edge_ok=not_none_edge) or []) if not okk else None)
     rep.floor(R, len(done) + len(kills) + len(reaps), 3, 'done/kill/reap sites')
+
+
+TOLERANT_ERRORS = ('replace', 'ignore', 'backslashreplace', 'surrogateescape')
+
+
+def r8_noise_tolerance(ctx, rep, R='C07.R8'):
+    rep.rule(R, 'noise tolerance: whatever bytes the child (or its tests) wrote to stderr before the '
+             'report, the parent still finds the header: nothing that can raise on arbitrary bytes '
+             '(a strict decode of the drained buffer or of a line) is evaluated before the header '
+             'line was parsed, except inside the per-line try whose handler goes on to the next line')
+    fi = ctx.model.func(READER)
+    g = ctx.cfg(fi)
+    hp = _header_parse(g)
+    if hp is None:
+        rep.undecide(R, 'header parse', 'not found')
+        return
+    before = g.reach_back([hp.id]) | {hp.id}
+    n = 0
+    bad = []
+    for nid in sorted(before):
+        nd = g.node(nid)
+        for c in node_calls(g, nid):
+            if isinstance(c.func, ast.Attribute) and c.func.attr == 'decode':
+                err = c.args[1] if len(c.args) > 1 else kw(c, 'errors')
+                tolerant = isinstance(err, ast.Constant) and err.value in TOLERANT_ERRORS
+                n += 1
+                if tolerant:
+                    continue
+                # a strict decode is fine only inside a try whose handler continues the search
+                st = c
+                protected = False
+                while getattr(st, '_parent', None) is not None and st._parent is not fi.node:
+                    st = st._parent
+                    if isinstance(st, ast.Try) and any(
+                            h.type is not None and any(x in norm(h.type) for x in
+                                                       ('ValueError', 'UnicodeDecodeError', 'UnicodeError'))
+                            and any(isinstance(y, ast.Continue) for y in ast.walk(h))
+                            for h in st.handlers):
+                        protected = True
+                        break
+                    if isinstance(st, (ast.For, ast.While)):
+                        break
+                if not protected and nid != hp.id and not _after_header(g, hp, nid):
+                    bad.append(c)
+    rep.check(not bad, R, 'no strict decode of child-controlled bytes before the header is found',
+              '%s is evaluated before the report header was found: one undecodable byte anywhere on '
+              'the child\'s stderr makes the parent discard a complete, valid report'
+              % [norm(c)[:60] for c in bad], key='strict-decode-before-header', func=fi.qualname,
+              where=ctx.where(fi, bad[0]) if bad else '')
+    rep.floor(R, len(before), 10, 'statements before the header parse')
+
+
+def _after_header(g, hp, nid):
+    """the node is only reachable after the header-search loop was left (message building for
+    the no-header case, consumer loops)"""
+    dom = g.dominators()
+    loops = [n.id for n in g.nodes if n.kind == 'for' and hp.id in g.loop_nodes(n.id)]
+    if not loops:
+        return False
+    return loops[-1] in dom.get(nid, ()) and nid not in g.loop_nodes(loops[-1])
